@@ -253,7 +253,7 @@ package ch
 
 //@ -- the receive loop of Do: nil is returned only on end-of-stream; data and totals packets go to
 //@ -- decodeBlock, everything else except end-of-stream to handlePacket
-//@ contract (c *Client) Do$5() (err) props(C03,C08)
+//@ contract (c *Client) Do$5() (err) props(C03,C04,C08)
 //@   requires *c != nil && *ctx != nil && c.reader != nil
 //@   modifies all(*c), all(*ctx), all(q.Result), gotException.val, all(q.OnLogs), all(q.OnLog)
 //@   ensures err == nil ==> code == 5 [C03] {nil-only-on-end-of-stream}
@@ -261,6 +261,13 @@ package ch
 //@   assert code == 1 || code == 7 [C03] {blocks-only-for-data-and-totals-packets}
 //@ callsite (*Client).handlePacket
 //@   assert code != 1 && code != 7 && code != 5 [C03] {other-packets-go-to-handlePacket}
+//@ -- the flag that suppresses cancel-and-close is raised only for an error that IS a server
+//@ -- exception (decided by IsException on the returned error, not by the packet code: an exception
+//@ -- packet that fails to decode must still close the client), C04
+//@ callsite ch.IsException
+//@   assert code != 1 && code != 7 && code != 5 [C04] {exception-test-is-applied-to-the-handlePacket-error}
+//@ callsite Bool).Store
+//@   assert code != 1 && code != 7 && code != 5 [C04] {exception-flag-only-on-the-handlePacket-path}
 //@ loop 0 ()
 //@   modifies all(*c), all(*ctx), all(q.Result), gotException.val, all(q.OnLogs), all(q.OnLog)
 //@   invariant *c != nil && *ctx != nil && c.reader != nil
